@@ -73,6 +73,47 @@ def oracle(ctx, budget=1, replay=None, hints=None):
                 break
         if SS.fingerprint(run.h.state) != run.live_before:
             fails.append(dict(what='filtering a file modified the live plugin state', signature='C20:isolation', case=dict(lines=[repr(x) for x in f['lines'][:8]])))
+    # the same comparison with the live side driven through the plugin object's queuing hooks (active print): whatever the hooks add in
+    # front of the handlers must not make live and offline filtering differ
+    import implplugin as IP
+    for _ in range(12 * budget):
+        f = SS.gen_file(ctx.rng)
+        prog = f['prog']
+        pl = IP.new_plugin(g90InfluencesExtruder=prog['g90e'], enteringExcludedRegionGcode=('\n'.join(prog['enter']) if prog['enter'] else None),
+                           exitingExcludedRegionGcode=('\n'.join(prog['exit']) if prog['exit'] else None),
+                           extendedExcludeGcodes=[dict(gcode=g, mode=m, description='') for g, m in sorted(prog['ext'].items())])
+        for r in prog['regions']:
+            d = (dict(type='RectangularRegion', id=r[1], x1=float(r[2]), y1=float(r[3]), x2=float(r[4]), y2=float(r[5])) if r[0] == 'rect'
+                 else dict(type='CircularRegion', id=r[1], cx=float(r[2]), cy=float(r[3]), r=float(r[4])))
+            IP.api(pl, 'addExcludeRegion', d)
+        pl.on_event(IP.EVENTS['PRINT_STARTED'], {})
+        for l in f['pre']:
+            SS.live_twin_outputs_plugin(pl, l + '\n')
+        sp = impl.StreamProcessor(__import__('io').BytesIO(b''), pl.gcodeHandlers)
+        eol_seen = None
+        for k, line in enumerate(f['lines']):
+            n += 1
+            m = __import__('re').search(r'(\r\n|\r|\n)$', line)
+            if m:
+                eol_seen = m.group(1)
+            try:
+                want = SS.live_twin_outputs_plugin(pl, line)
+                got = sp.process_line(line)
+            except Exception as e:
+                fails.append(dict(what='line %r raised %s: %s' % (line, type(e).__name__, e), signature='C20:exception', case=dict(lines=[repr(x) for x in f['lines'][:k + 1]][-10:])))
+                break
+            eol = eol_seen or '\n'
+            if want[0] == 'keep':
+                ok = (got == line)
+            elif want[0] == 'drop':
+                ok = got is None
+            else:
+                parts = SS.split_eol(got, eol) if isinstance(got, str) else None
+                ok = parts is not None and [semantic(x) for x in parts] == [semantic(x) for x in want[1]]
+            if not ok:
+                fails.append(dict(what='line %r: the plugin hooks give %r during a print, the stream processor returned %r' % (line, want, got), signature='C20:differs-plugin',
+                                  case=dict(pre=f['pre'][-6:], lines=[repr(x) for x in f['lines'][:k + 1]][-10:], regions=[[str(v) for v in r] for r in prog['regions']])))
+                break
     # isolation on designed live states: an episode is open live with deferred (first / last / merged) commands, an owed recovery, changed
     # units / modes; the file then defers the same codes again, leaves the region, switches units -- nothing of it may reach the live state
     import io as _io
